@@ -1,7 +1,7 @@
 //! Views, iterators, drains, comparisons and constructors of the interpreter.
 
 use crate::case::*;
-use crate::deq::{from_array, from_iter_dyn, make_buf, Ctor, FROM_ARRAY_MAX_M, FROM_ARRAY_MAX_N};
+use crate::deq::{from_array, from_iter_dyn, make_buf, unzip_dyn, Ctor, FROM_ARRAY_MAX_M, FROM_ARRAY_MAX_N};
 use crate::interp::*;
 use crate::interp_ops::{cc, GenIter};
 use crate::model::{range_must_panic, range_to_pair};
@@ -490,6 +490,20 @@ impl St {
                             check_ref("range(p..p+1) second next_back()", it.next_back(), None)?;
                         }
                         check_ref("index", Some(b.index(p)), e)?;
+                        // consuming accessors of sub-ranges that end / start at p
+                        for native in [true, false] {
+                            check_ref("range(..=p).last()", b.range(crate::deq::RangeArg { start: Bound::Unbounded, end: Bound::Included(p), native }).last(), e)?;
+                            check_ref("range(p..).rev().last()", b.range(crate::deq::RangeArg { start: Bound::Included(p), end: Bound::Unbounded, native }).rev().last(), e)?;
+                            check_ref("range(p..).last()", b.range(crate::deq::RangeArg { start: Bound::Included(p), end: Bound::Unbounded, native }).last(), obs.last())?;
+                            let c = b.range(crate::deq::RangeArg { start: Bound::Included(p), end: Bound::Unbounded, native }).count();
+                            if c != len - p {
+                                return Err(format!("range({p}..).count() = {c}, expected {}", len - p));
+                            }
+                        }
+                        let a = b.range_mut(crate::deq::RangeArg { start: Bound::Unbounded, end: Bound::Included(p), native: true }).last().map(|t| addr(t));
+                        if a != e.map(|o| o.addr) {
+                            return Err(format!("range_mut(..={p}).last() addresses {:?}, expected {:?}", a, e.map(|o| o.addr)));
+                        }
                     }
                     if p == 0 {
                         check_ref("front", b.front(), e)?;
@@ -541,6 +555,21 @@ impl St {
                     let mut rev: Vec<&Tracked> = b.iter().rev().collect();
                     rev.reverse();
                     seq("iter().rev()", &mut rev.into_iter())?;
+                    // the consuming accessors of the iterators (provided methods an implementation may override)
+                    check_ref("iter().last()", b.iter().last(), obs.last())?;
+                    check_ref("iter().rev().last()", b.iter().rev().last(), obs.first())?;
+                    check_ref("(&buf).into_iter().last()", b.ref_into_iter().last(), obs.last())?;
+                    if b.iter().count() != obs.len() || b.iter().rev().count() != obs.len() {
+                        return Err(format!("iter().count() = {}, expected {}", b.iter().count(), obs.len()));
+                    }
+                    let la = b.iter_mut().last().map(|t| addr(t));
+                    let fa = b.iter_mut().rev().last().map(|t| addr(t));
+                    if la != obs.last().map(|o| o.addr) || fa != obs.first().map(|o| o.addr) || b.iter_mut().count() != obs.len() {
+                        return Err(format!(
+                            "iter_mut().last() / iter_mut().rev().last() address {:?} / {:?}, expected {:?} / {:?}",
+                            la, fa, obs.last().map(|o| o.addr), obs.first().map(|o| o.addr)
+                        ));
+                    }
                     for alt in [false, true] {
                         let want = if alt { format!("{:#?}", vals) } else { format!("{:?}", vals) };
                         let got = b.debug_string(alt);
@@ -802,7 +831,7 @@ impl St {
             Op::IntoIter(script) => self.into_iter_script(script),
             Op::FromArray(m) => {
                 let m = *m as usize;
-                if n > FROM_ARRAY_MAX_N || m > FROM_ARRAY_MAX_M {
+                if (n > FROM_ARRAY_MAX_N || m > FROM_ARRAY_MAX_M) && !crate::deq::FROM_ARRAY_BIG_PAIRS.contains(&(n, m)) {
                     self.flags |= fl::SKIPPED;
                     return Ok(Flow::Done);
                 }
@@ -834,7 +863,8 @@ impl St {
                     }
                 }
             }
-            Op::FromIter(m, hint) => {
+            Op::FromIter(m, hint) | Op::Unzip(m, hint) => {
+                let unzip = matches!(op, Op::Unzip(..));
                 let old = self.buf.take().unwrap();
                 let old_ids = self.model_ids();
                 drop(old);
@@ -846,7 +876,7 @@ impl St {
                 let mut it = GenIter::new(*m, self.next_val, *hint);
                 let r = {
                     let it = &mut it;
-                    self.call_free(move || from_iter_dyn::<Tracked>(n, it))
+                    self.call_free(move || if unzip { unzip_dyn::<Tracked>(n, it) } else { from_iter_dyn::<Tracked>(n, it) })
                 };
                 self.next_val = it.next_val;
                 match r {
